@@ -268,9 +268,12 @@ Record mb := mkMB {
   mb_sigs2 : list sigent
 }.
 
-Definition signed (e : sigent) : bool := negb (g_flag e =? F_ABSENT).
+(* only BlockIDFlagCommit counts as having signed the header (absent validators and NIL votes do not; repaired
+   in /repo by "fix: only validators that committed to both headers are byzantine" - before that repair every
+   non-absent signature counted, see signed_prefix in Proofs/EvidenceProofs.v) *)
+Definition signed (e : sigent) : bool := g_flag e =? F_COMMIT.
 
-(* header1Signers[address] = index of the LAST non-absent signature with that address *)
+(* header1Signers[address] = index of the LAST committed signature with that address *)
 Fixpoint last_signer (a : Z) (l : list sigent) : option sigent :=
   match l with
   | [] => None
@@ -547,7 +550,10 @@ Definition mon_step (pre : state) (o : op) (ob : tree) : state * list Z :=
       (* 5: a tombstoned validator is never touched again *)
       flag once 5 ++
       (* 6: dirty only with a rejection *)
-      flag (negb d || negb (r =? 0)) 6
+      flag (negb d || negb (r =? 0)) 6 ++
+      (* 11: valid evidence against a punishable validator IS accepted *)
+      flag (negb (dv_valid_b pre entry e &&
+                  match getv pre p with Some v => punishable v && v_sinfo v | None => false end) || (r =? 0)) 11
     | OMB entry m =>
       match getc pre (mb_cons m) with
       | None => flag (negb (r =? 0) && all_same) 1
@@ -569,13 +575,27 @@ Definition mon_step (pre : state) (o : op) (ob : tree) : state * list Z :=
                  | _, _ => false end) nv)) 8 ++
         (* 9: accepted => somebody was punished *)
         flag (negb (r =? 0) || negb all_same) 9 ++
+        (* 13: whoever is changed has, under one of its keys, a BlockIDFlagCommit signature in BOTH commits
+               (a validator that only voted nil or was absent in a header is never punished) *)
+        flag (same_len && forallb (fun i => unchanged i ||
+                existsb (fun e2 => (g_flag e2 =? F_COMMIT) && (resolve c (g_addr e2) =? i) &&
+                           existsb (fun e1 => (g_flag e1 =? F_COMMIT) && (g_addr e1 =? g_addr e2)) (mb_sigs1 m))
+                        (mb_sigs2 m)) nv) 13 ++
         flag once 5 ++
-        flag (negb d || negb (r =? 0)) 6
+        flag (negb d || negb (r =? 0)) 6 ++
+        (* 12: a valid misbehaviour with a punishable byzantine validator IS accepted *)
+        flag (negb ((mb_check pre m =? 0) && implb (entry =? 0) (mb_vb_ok m)
+                    && match get_byzantine m with Ok _ => true | Err _ => false end
+                    && match c_ds c with Some _ => true | None => false end
+                    && existsb (fun a => match getv pre (resolve c a) with Some v => punishable v | None => false end) byz
+                    && forallb (fun a => match getv pre (resolve c a) with
+                                         | Some v => negb (punishable v) || v_sinfo v | None => true end) byz)
+              || (r =? 0)) 12
       end
     | OGBV m =>
       let out := tzs (tnth 2 ob) in
       flag all_same 1 ++
-      (* 10: every returned validator has a non-absent signature in both commits, and vice versa; amnesia => nobody *)
+      (* 10: every returned validator has a BlockIDFlagCommit signature in both commits, and vice versa; amnesia => nobody *)
       flag (negb (r =? 0) ||
             (forallb (fun a => existsb (fun e => signed e && (g_addr e =? a)) (mb_sigs1 m)
                                && existsb (fun e => signed e && (g_addr e =? a)) (mb_sigs2 m)) out
